@@ -185,7 +185,12 @@ pub fn payload_bytes(key: u64, pid: Pid) -> Vec<u8> {
     // frame's payload for an entry of its own (e.g. a damaged frame-type byte that is not
     // covered by the checksum), a record that was never appended surfaces.
     if out.len() >= 64 {
-        let e = forged_entry();
+        let mut e = forged_entry();
+        // the forged record's 11 payload bytes are unique to this payload, so that tails of
+        // different payloads are never interchangeable
+        let at_payload = e.len() - 11;
+        let uniq = format!("{:011x}", crate::util::hash_combine(key, (pid.op as u64) << 32 | pid.idx as u64) & 0xFFF_FFFF_FFFF);
+        e[at_payload..].copy_from_slice(uniq.as_bytes());
         let at = out.len() - e.len();
         out[at..].copy_from_slice(&e);
     }
